@@ -6,7 +6,7 @@ GSmall == {[j |-> j, r |-> r] : j \in {-2, 0, 3}, r \in {<<0, 1>>, <<1, 1>>, <<-
 GHuge == {[j |-> 0, r |-> <<300, 1>>], [j |-> 0, r |-> <<-125, 1>>]}           \* residuals of hundreds of sigma
 GData == GSmall \cup GHuge
 LData == {[j |-> j, q |-> q] : j \in {-2, 0, 3}, q \in {<<"rat", 1, 1>>, <<"rat", 2, 1>>, <<"rat", 1, 3>>, <<"rat", 5, 2>>,
-                                                         <<"pow2", 40>>, <<"pow2", -40>>, <<"pow2", 600>>, <<"pow2", -600>>}}
+                                                         <<"pow2", 40>>, <<"pow2", -40>>, <<"pow2", 600>>, <<"pow2", -1100>>, <<"pow2", 1100>>}}
 VARIABLES kind, data, jac, out
 Init == /\ kind \in {"gauss", "cauchy", "logistic"}
         /\ \E n \in 1..MaxN : /\ data \in [1..n -> IF kind = "logistic" THEN LData ELSE GData]
